@@ -277,6 +277,48 @@ fn offset_case(ctx: &mut Ctx, fmt: &str, bytes: &[u8], k: usize) {
     }
 }
 
+/// `from_file` on a handle positioned behind a 16-byte preamble: like parsing the image itself
+fn file_case(ctx: &mut Ctx, fmt: &str, image: &[u8], truncated: bool) {
+    let dir = ctx.out.join("files");
+    let _ = std::fs::create_dir_all(&dir);
+    let path = dir.join(format!("pre-{}.{}", image.len(), fmt));
+    let mut content = vec![0x5Au8; 16];
+    content.extend_from_slice(image);
+    std::fs::write(&path, &content).unwrap();
+    ctx.oracle_eval("from_file-at-offset");
+    let want = if fmt == "smx" { read_smx(image).and_then(|r| r.ok()).map(|(p, _)| smx_tok(&p)) } else { read_pth(image).and_then(|r| r.ok()).map(|(p, _)| pth_tok(&p)) };
+    let is_smx = fmt == "smx";
+    let got = guard(std::panic::AssertUnwindSafe(|| {
+        use std::io::{Seek, SeekFrom};
+        let mut f = std::fs::File::open(&path).ok()?;
+        let _ = f.seek(SeekFrom::Start(16)).ok()?;
+        if is_smx { Smx::from_file(&mut f).ok().map(|p| smx_tok(&p)) } else { Pth::from_file(&mut f).ok().map(|p| pth_tok(&p)) }
+    }));
+    if got != Some(want.clone()) {
+        let op = format!("{}.file {}", fmt, hex(image));
+        let sig = if truncated && want.is_none() { format!("c17/{}/truncated-accepted", fmt) } else { format!("c17/{}/from_file", fmt) };
+        ctx.violation(&sig, "from_file on a handle positioned behind a preamble does not behave like parsing the image (a file cut short was accepted, or a whole one was not)", &truncate(&op, 4000), if want.is_some() { "the structure" } else { "an error" }, &format!("{:?}", got.map(|g| g.map(|t| truncate(&t, 80)))));
+    }
+}
+
+/// a reader that hands over at most `per` bytes per call (a pipe, a slow disk, a decompressor): same structure or same error
+struct Dribble { inner: Cursor<Vec<u8>>, per: usize }
+impl std::io::Read for Dribble { fn read(&mut self, buf: &mut [u8]) -> std::io::Result<usize> { let n = buf.len().min(self.per); self.inner.read(&mut buf[..n]) } }
+impl std::io::Seek for Dribble { fn seek(&mut self, p: std::io::SeekFrom) -> std::io::Result<u64> { self.inner.seek(p) } }
+fn dribble_case(ctx: &mut Ctx, fmt: &str, bytes: &[u8], per: usize) {
+    let op = format!("{}.drib {} {}", fmt, per, hex(bytes));
+    ctx.oracle_eval(&format!("{}-dribble", fmt));
+    let b = bytes.to_vec();
+    let (whole, piece): (Option<Option<String>>, Option<Option<String>>) = if fmt == "pth" {
+        (Some(read_pth(bytes).and_then(|r| r.ok()).map(|(p, _)| pth_tok(&p))), guard(move || Pth::read(&mut Dribble { inner: Cursor::new(b), per }).ok().map(|p| pth_tok(&p))))
+    } else {
+        (Some(read_smx(bytes).and_then(|r| r.ok()).map(|(p, _)| smx_tok(&p))), guard(move || Smx::read(&mut Dribble { inner: Cursor::new(b), per }).ok().map(|p| smx_tok(&p))))
+    };
+    if whole != piece {
+        ctx.violation(&format!("c17/{}/segmented-read", fmt), "the same bytes parse differently when the reader hands them over a few at a time", &truncate(&op, 300), if whole.clone().flatten().is_some() { "the structure" } else { "an error" }, if piece.flatten().is_some() { "a (different) structure" } else { "an error / panic" });
+    }
+}
+
 /// counts around the 16-bit boundary, and a negative count with enough bytes behind it to satisfy any narrowed reading
 fn big_case(ctx: &mut Ctx, declared: i32, backing: usize) {
     let b = big_smx(declared, backing);
@@ -331,6 +373,10 @@ fn run_inner(ctx: &mut Ctx) {
             match w.as_slice() {
                 ["smx.big", d, n] => big_case(ctx, d.parse().unwrap_or(0), n.parse().unwrap_or(0)),
                 ["smx.at", k, h] => offset_case(ctx, "smx", &unhex(h), k.parse().unwrap_or(0)),
+                ["smx.file", h] => file_case(ctx, "smx", &unhex(h), true),
+                ["pth.file", h] => file_case(ctx, "pth", &unhex(h), true),
+                ["smx.drib", k, h] => dribble_case(ctx, "smx", &unhex(h), k.parse().unwrap_or(1)),
+                ["pth.drib", k, h] => dribble_case(ctx, "pth", &unhex(h), k.parse().unwrap_or(1)),
                 ["pth.at", k, h] => offset_case(ctx, "pth", &unhex(h), k.parse().unwrap_or(0)),
                 ["pth.big", d, n] => big_pth_case(ctx, d.parse().unwrap_or(0), n.parse().unwrap_or(0)),
                 ["pth", h] => pth_case(ctx, &unhex(h), "replay", true),
@@ -394,6 +440,9 @@ fn run_inner(ctx: &mut Ctx) {
         if let Some(Ok(b)) = write_smx(&s) { for k in [1usize, 2, 3, 4, 5, 7] { offset_case(ctx, "smx", &b, k); } }
         let p = gen_pth(&mut ctx.rng, 1 + i % 4);
         if let Some(Ok(b)) = write_pth(&p) { for k in [1usize, 2, 3, 5] { offset_case(ctx, "pth", &b, k); } }
+        // … and through a reader that gives a few bytes per call, whole and cut short
+        if let Some(Ok(b)) = write_smx(&s) { for per in [1usize, 3, 7] { dribble_case(ctx, "smx", &b, per); dribble_case(ctx, "smx", &b[..b.len() - 1 - (i % 5)], per); } }
+        if let Some(Ok(b)) = write_pth(&p) { for per in [1usize, 3, 7] { dribble_case(ctx, "pth", &b, per); dribble_case(ctx, "pth", &b[..b.len() - 1 - (i % 5)], per); } }
     }
     // element counts around the 16-bit boundary (a count narrowed on its way from the file to the reader shows here),
     // a declared count larger than what follows, and negative counts backed by plenty of bytes
@@ -437,6 +486,20 @@ fn run_inner(ctx: &mut Ctx) {
         ctx.oracle_eval("from_pathbuf");
         let r = guard(std::panic::AssertUnwindSafe(|| Smx::from_pathbuf(&path).map(|x| smx_tok(&x)).map_err(|_| ())));
         if r != Some(Ok(smx_tok(&s))) { ctx.violation("c17/smx/from_pathbuf", "from_pathbuf on a temporary file does not return the written structure", &format!("smx {}", truncate(&hex(&b), 200)), &truncate(&smx_tok(&s), 100), &format!("{:?}", r.map(|x| x.map(|t| truncate(&t, 100))))); }
+    }
+    // from_file on a handle that is not at the start of its file (an image behind a preamble), whole and cut short by 1..8
+    // bytes — an image whose tail is all zero bytes included (a buffer pre-filled with zeros must not stand in for it)
+    for (i, fmt) in ["smx", "pth", "smx", "pth"].iter().enumerate() {
+        let image: Vec<u8> = if *fmt == "smx" {
+            let mut s = gen_smx(&mut ctx.rng, 1 + i, 1);
+            if i >= 2 { s.checkpoint_object_index = vec![0]; }
+            write_smx(&s).unwrap().unwrap()
+        } else {
+            let mut b = write_pth(&gen_pth(&mut ctx.rng, 2 + i)).unwrap().unwrap();
+            if i >= 2 { let n = b.len(); for x in &mut b[n - 8..] { *x = 0; } }
+            b
+        };
+        for cut in 0..=8usize { file_case(ctx, fmt, &image[..image.len() - cut], cut > 0); }
     }
     let missing = dir.join("does-not-exist.pth");
     if guard(std::panic::AssertUnwindSafe(|| Pth::from_pathbuf(&missing).is_err())) != Some(true) { ctx.violation("c17/pth/missing-file", "a missing file is not reported as an error", "missing", "err", "other"); }
